@@ -1,0 +1,55 @@
+//go:build verif
+
+// Contracts for the verif framework (/verif). Comment-only: this file
+// declares nothing and is compiled only with -tags=verif.
+
+package filelock
+
+// Ghost state (see /verif/specs/fs.spec): fdMode[f] is the flock state of the open
+// file description behind the *os.File f (0 unlocked, 1 shared, 2 exclusive).
+// unbox(f) is the *os.File stored in the interface value f.
+
+//@ pure func modeOf(lt int) int = lt == 2 ? 2 : (lt == 1 ? 1 : 0)
+
+//@ extern (github.com/rogpeppe/go-internal/lockedfile/internal/filelock.File).Fd(f) (r)
+//@   pure
+//@   ensures fileOfFd(r) == unbox(f)
+
+//@ extern (github.com/rogpeppe/go-internal/lockedfile/internal/filelock.File).Name(f) (r)
+//@   pure
+
+//@ func (lockType).String
+//@   pure
+
+// lock returns nil only when the last flock call succeeded with the requested
+// type; EINTR is retried and never returned; a failure leaves the lock state as it was.
+//@ func lock
+//@   modifies fdMode
+//@   loop 1: invariant fdMode == old(fdMode)
+//@   ensures err == nil ==> fdMode[unbox(f)] == modeOf(lt)
+//@   ensures err == nil ==> forall g int {fdMode[g]} :: g != unbox(f) ==> fdMode[g] == old(fdMode)[g]
+//@   ensures err != nil ==> fdMode == old(fdMode)
+
+//@ func unlock
+//@   modifies fdMode
+//@   ensures result == nil ==> fdMode[unbox(f)] == 0
+//@   ensures result == nil ==> forall g int {fdMode[g]} :: g != unbox(f) ==> fdMode[g] == old(fdMode)[g]
+//@   ensures result != nil ==> fdMode == old(fdMode)
+
+//@ func Lock
+//@   modifies fdMode
+//@   ensures result == nil ==> fdMode[unbox(f)] == 2
+//@   ensures result == nil ==> forall g int {fdMode[g]} :: g != unbox(f) ==> fdMode[g] == old(fdMode)[g]
+//@   ensures result != nil ==> fdMode == old(fdMode)
+
+//@ func RLock
+//@   modifies fdMode
+//@   ensures result == nil ==> fdMode[unbox(f)] == 1
+//@   ensures result == nil ==> forall g int {fdMode[g]} :: g != unbox(f) ==> fdMode[g] == old(fdMode)[g]
+//@   ensures result != nil ==> fdMode == old(fdMode)
+
+//@ func Unlock
+//@   modifies fdMode
+//@   ensures result == nil ==> fdMode[unbox(f)] == 0
+//@   ensures result == nil ==> forall g int {fdMode[g]} :: g != unbox(f) ==> fdMode[g] == old(fdMode)[g]
+//@   ensures result != nil ==> fdMode == old(fdMode)
